@@ -475,6 +475,22 @@ TRIVIA_POOL = [True, False, 'all', 'block', 'none', 'all-', 'block+1', '+2', '-1
                ('block-1', False), ('+1', 'none')]
 
 
+def _target_lines(root, plan):
+    """0-based first / last line of the targeted element (or of its container), from the live tree's own positions -
+    only used to pick option values."""
+    try:
+        node = node_at(root.a, plan.path)
+        vals = getattr(node, {'_body': 'body', '_args': 'args', '_bases': 'bases'}.get(plan.field, plan.field), None)
+        i = plan.idx if isinstance(plan.idx, int) else plan.start if isinstance(plan.start, int) else None
+        if isinstance(vals, list) and i is not None and -len(vals) <= i < len(vals) and hasattr(vals[i], 'lineno'):
+            node = vals[i]
+        elif isinstance(vals, ast.AST) and hasattr(vals, 'lineno'):
+            node = vals
+        return node.lineno - 1, node.end_lineno - 1
+    except (AttributeError, IndexError, TypeError):
+        return 0, max(0, len(root.lines) - 1)
+
+
 def make_hooks(tt: TokTables):
     """hooks for harness.histories.run_history: attach `tk` to every event (complete facts only for successful edits)."""
 
@@ -488,11 +504,13 @@ def make_hooks(tt: TokTables):
         ev['tk'] = tk
 
     def pre(root, plan, o, rng):
-        # widen the driver's option pool: every documented form of the `trivia` option, line numbers included
+        # widen the driver's option pool: every documented form of the `trivia` option, line numbers included (chosen
+        # around the lines of the targeted element so that they matter)
         if not plan.corrupt and rng.random() < 0.45:
-            nl = len(root.lines)
-            pool = TRIVIA_POOL + [rng.randrange(nl), (rng.randrange(nl), rng.randrange(nl)), ('block', rng.randrange(nl)),
-                                  (rng.randrange(nl), 'line'), (rng.randrange(nl), 'all')]
+            a, b = _target_lines(root, plan)
+            lead, trail = rng.randint(a - 4, a + 1), rng.randint(b - 2, b + 4)
+            pool = TRIVIA_POOL + [lead, (lead, trail), ('block', trail), (lead, 'line'), (lead, 'all'), (lead, 'none'),
+                                  (lead, trail), ('all', trail)]
             plan.opts = dict(plan.opts, trivia=rng.choice(pool))
 
     return {'pre': pre, 'post': post}
